@@ -175,7 +175,28 @@ class C04Mon(episodes.Monitor):
 
     def on_step(self, rec, t, ps, pts, a, s, ts, after_last):
         if not after_last:
+            self.joint(rec, ps, pts, a, s, ts)
             self.judge(rec, s, ts)
+
+    def joint(self, rec, ps, pts, a, s, ts):
+        """The joint action actually played: in environments whose documentation never lets one agent's move be
+        cancelled because of another agent's move (model.JOINT_REACTION), an agent whose action was masked-in must
+        not be treated as having played an invalid move, whatever the others did in the same step."""
+        if self.m is None or not getattr(self.m, "JOINT_REACTION", False) or self.b.layout != "agents":
+            return
+        mask = self.b.mask(pts)
+        act = np.asarray(a).reshape(-1)
+        for k in range(mask.shape[0]):
+            if not (0 <= int(act[k]) < mask.shape[1]) or not mask[k, int(act[k])]:
+                continue
+            inv = self.m.reacted_invalid(ps, a, s, ts, agent=k)
+            if inv is None:
+                continue
+            self.ctx.evals()
+            self.ctx.count("joint_reactions_checked")
+            if inv:
+                rec.fail("mask_vs_reaction.joint", "masked-in action of a joint action was handled as invalid",
+                         f"agent {k} action {int(act[k])} of joint action {act.tolist()}")
 
 
 def legal_fn_factory(b):
